@@ -362,7 +362,9 @@ class Engine(Executor, Calls):
                 try:
                     st.assume(to_bool(ctx.eval(cl.ast)))
                 except SpecError as e:
-                    self.errors.append("%s:%d: %s" % (cl.file, cl.line, e))
+                    msg = "%s:%d: %s" % (cl.file, cl.line, e)
+                    if msg not in self.errors:
+                        self.errors.append(msg)
 
     # ------------------------------------------------------------------ solver
     def check_valid(self, st, goal):
@@ -495,6 +497,125 @@ class Engine(Executor, Calls):
                 st.assume(to_bool(ctx.eval(cl.ast)))
                 self.used_contracts.add("assumed after-call fact [%s] in %s" % (cl.label, c["short"]))
 
+    # ------------------------------------------------------------------ loops with invariants
+    def loop_invariants(self, fr, loop):
+        c = self.cur
+        if c is None or self.quiet or fr.fn is not c.get("fn"):
+            return None
+        cls = [cl for cl in c["decl"].get("loop") if cl.extra.get("ordinal") == loop["ordinal"]]
+        return cls or None
+
+    def local_names(self, fr, st):
+        """source-level variable name -> current value (via go/ssa debug references)"""
+        out = {}
+        fn = fr.fn
+        for name, refs in (fn.get("locals") or {}).items():
+            val = None
+            for r in refs:
+                if r.startswith("&"):
+                    v = fr.env.get(r[1:])
+                    if isinstance(v, PtrV):
+                        try:
+                            val = st.load(v)
+                        except Exception:
+                            pass
+                elif r in fr.env:
+                    val = fr.env[r]
+            if val is not None:
+                out[name] = val
+        return out
+
+    def eval_loop_clause(self, fr, st, cl, extra_names=None):
+        c = self.cur
+        names = dict(c["names"])
+        names.update(self.local_names(fr, st))
+        if extra_names:
+            names.update(extra_names)
+        ctx = SpecCtx(self, st, c["entry"], names, fr_pkg=fr.fn["pkg"])
+        ctx.name_types = dict(c["name_types"])
+        ctx.loop_frame = fr
+        ctx.loop_head = fr.blk
+        return to_bool(ctx.eval(cl.ast))
+
+    def cut_loop(self, fr, st, loop, clauses):
+        head = fr.blk
+        body = loop["body"]
+        invs = [cl for cl in clauses if cl.extra["what"] == "invariant"]
+        blk = fr.fn["blocks"][head]
+        from_inside = fr.prev in body
+        phis = [ins for ins in blk["instrs"] if ins["op"] == "Phi"]
+        if from_inside:
+            # back edge: evaluate phis with the back-edge values, check the invariant, end the path
+            idx = blk["preds"].index(fr.prev)
+            newv = {ins["name"]: self.operand(fr, st, ins["args"][idx]) for ins in phis}
+            fr.env.update(newv)
+            for cl in invs:
+                o = self.obl("loop-step", "%d:%s" % (loop["ordinal"], cl.label or "inv"), cl.tags)
+                try:
+                    goal = self.eval_loop_clause(fr, st, cl)
+                except (SpecError, Unsupported) as e:
+                    o.instances += 1
+                    o.unknown.append({"reason": "spec error: %s" % e})
+                    continue
+                self.record(o, st, goal, blk["instrs"][0].get("pos") if blk["instrs"] else None)
+            return [Outcome("loopend", st)]
+        # first arrival: establish, havoc, assume
+        idx = blk["preds"].index(fr.prev)
+        entry_vals = {ins["name"]: self.operand(fr, st, ins["args"][idx]) for ins in phis}
+        fr.env.update(entry_vals)
+        for cl in invs:
+            o = self.obl("loop-init", "%d:%s" % (loop["ordinal"], cl.label or "inv"), cl.tags)
+            try:
+                goal = self.eval_loop_clause(fr, st, cl)
+            except (SpecError, Unsupported) as e:
+                o.instances += 1
+                o.unknown.append({"reason": "spec error: %s" % e})
+                continue
+            self.record(o, st, goal, None)
+        # havoc loop-carried SSA values
+        for ins in phis:
+            fr.env[ins["name"]] = st.fresh(ins["type"], "loop_" + ins["name"])
+        # havoc local cells stored to inside the loop, and the declared targets
+        for b in body:
+            for ins in fr.fn["blocks"][b]["instrs"]:
+                if ins["op"] == "Store" and ins["args"][0]["k"] == "v":
+                    p = fr.env.get(ins["args"][0]["n"])
+                    if isinstance(p, PtrV) and isinstance(p.cell, int):
+                        try:
+                            cur = st.load(p)
+                            nw = len(st.writes)
+                            st.store(p, self.havoc_like(st, cur))
+                            del st.writes[nw:]
+                        except Unsupported:
+                            pass
+        for cl in clauses:
+            if cl.extra["what"] == "modifies":
+                names = dict(self.cur["names"])
+                names.update(self.local_names(fr, st))
+                ctx = SpecCtx(self, st, self.cur["entry"], names, fr_pkg=fr.fn["pkg"])
+                for t in cl.extra["targets"]:
+                    a = parse_expr(t)
+                    v = None
+                    try:
+                        v = ctx.eval_addr(a)
+                    except (SpecError, Unsupported):
+                        v = ctx.eval(a)
+                    if isinstance(v, PtrV):
+                        cur = st.load(v)
+                        st.store(v, self.havoc_like(st, cur))
+                    elif isinstance(v, MapV):
+                        c0 = st.map_contents(v)
+                        st.heap[v.cell] = MapC(z3.Const(fresh_name("mapbase"), z3.IntSort()), (), c0.kt, c0.vt)
+                        st.writes.append((v.cell, ()))
+        for cl in invs:
+            try:
+                st.assume(self.eval_loop_clause(fr, st, cl))
+            except (SpecError, Unsupported):
+                pass
+        fr.ip = len(phis)
+        fr.visits[head] = -10 ** 6
+        return None
+
     # concurrency hooks: overridden in conc.py -------------------------
     def on_lock(self, fr, st, p, ins, mode):
         pass
@@ -556,6 +677,7 @@ class Engine(Executor, Calls):
         else:
             o.failed.append({"reason": "preconditions are contradictory"})
         entry = st.clone()
+        self.cur["entry"] = entry
         t0 = time.time()
         outs = self.run(fn, args, st, depth=0, freevars=fvs, top=True)
         rets = [x for x in outs if x.kind == "ret"]
@@ -609,6 +731,23 @@ class Engine(Executor, Calls):
                             o.covered = False
                     except (SpecError, Unsupported):
                         pass
+            # data-structure invariants of the receiver are re-established
+            if fn.get("recv") and isinstance(args[0], PtrV):
+                rt = self.ir.types[self.ir.under(fn["params"][0]["type"])].get("elem")
+                d_inv = self.type_invs.get(rt)
+                if d_inv is not None and s2.writes:
+                    for icl in d_inv.clauses:
+                        if icl.kind != "invariant":
+                            continue
+                        oi = self.obl("inv", icl.label or ("line%d" % icl.line), icl.tags or None)
+                        try:
+                            ictx = SpecCtx(self, s2, s2, {"self": s2.load(args[0])}, fr_pkg=d_inv.pkg)
+                            goal = to_bool(ictx.eval(icl.ast))
+                        except (SpecError, Unsupported) as e:
+                            oi.instances += 1
+                            oi.unknown.append({"reason": "spec error: %s" % e})
+                            continue
+                        self.record(oi, s2, goal, out.info)
             # frame
             if not self.quiet:
                 of = self.obl("frame", "writes")
@@ -652,6 +791,10 @@ class Engine(Executor, Calls):
             ok = False
             for (ac, ap) in allowed:
                 if ac == cell and tuple(path[:len(ap)]) == ap:
+                    ok = True
+                # objects stored in an allowed map (values that are pointers) belong to that map's footprint
+                if isinstance(ac, str) and ac.startswith("m:") and isinstance(cell, tuple) and len(cell) == 2 and \
+                        isinstance(cell[1], str) and cell[1].startswith("mapval:") and ("mapbase!" + ac) in cell[1]:
                     ok = True
             if not ok:
                 bad.append("%s%s" % (cell, "".join("." + str(x) for x in path)))
